@@ -96,7 +96,12 @@ def _run_session(ctx, driver, files, spec, timeout=60.0):
         res = drivers.run_inline(tests, spec, ctx.scratch, timeout)
         ctx.session(res)
         new = dict(files)
-        if res.get("files") is not None:
+        if res.get("files_b") is not None:
+            # raw bytes of the session's directory (keeps the line ends the library wrote)
+            for k, v in res.pop("files_b").items():
+                if k in tests:
+                    new[k] = v.encode("latin-1")
+        elif res.get("files") is not None:
             for k, v in res["files"].items():
                 if k in tests:
                     new[k] = v.encode("utf-8")
